@@ -7,8 +7,9 @@ import translate
 ID = "C03"
 COQ_IMPORTS = ["From HTA.model Require Import C03_Model."]
 SOURCES = {"hta/common/trace_call_stack.py": ["_construct_call_stack_graph", "_add_edge", "sort_events", "is_events_sorted", "_less_than",
-                                              "_cmp_events_with_zero_duration"],
-           "hta/common/call_stack.py": ["_construct_call_stack_graph", "_add_edge", "compare_events"]}
+                                              "_cmp_events_with_zero_duration", "_get_all_root_indices", "_compute_depth", "get_depth"],
+           "hta/common/call_stack.py": ["_construct_call_stack_graph", "_add_edge", "compare_events", "_construct_call_graph", "get_depth"],
+           "hta/common/trace_call_graph.py": ["_build_call_stacks", "_connect_stacks"]}
 TRANSLATE = [translate.gen_cmp]
 N_CASES = {"quick": 300, "thorough": 6000}
 RULE = ("generated properly nested host threads (1-3 per rank, depth <= 5, tiny time domains: shared starts and ends, identical spans, back-to-back siblings, "
@@ -81,7 +82,23 @@ def run_impl(case, d):
                 except Exception as e:
                     res["old_" + label] = "error: " + type(e).__name__ + ": " + str(e)[:120]
             out[f"{r}|{pid}|{tid}"] = res
-    return {"threads": out}
+    # the second observable: the parent / depth columns the two CallGraph classes write into the trace
+    cols = {}
+    for label, mod_name in (("old", "hta.common.call_stack"), ("new", "hta.common.trace_call_graph")):
+        import importlib
+        try:
+            CG = importlib.import_module(mod_name).CallGraph
+            ranks = sorted(ta.t.get_ranks())
+            CG(ta.t, ranks=ranks)
+            for r in ranks:
+                df = ta.t.get_trace(r)
+                cols[f"{label}|{r}"] = {int(i): [(-1 if (p != p or int(p) < 0) else int(p)), (-9 if d_ != d_ else int(d_))]
+                                        for i, p, d_, st in zip(df.index, df["parent"], df["depth"], df["stream"]) if st == -1}
+        except Exception as e:
+            import traceback
+            cols[f"{label}|error"] = type(e).__name__ + ": " + str(e)[:200] + " @ " + traceback.format_exc()[-300:]
+    has_autograd = any("autograd::" in e.get("name", "") for rk in case["ranks"].values() for e in rk["events"])
+    return {"threads": out, "columns": cols, "has_autograd": has_autograd}
 
 
 def coq_term(case, impl):
@@ -154,6 +171,26 @@ def compare(case, impl, model):
                     if moved:
                         disc.append(f"thread {key}: {which} builder: zero-duration events change the parent of positive-duration events "
                                     f"(idx, parent with, parent without): {moved[:4]}")
+    # the columns written into the trace by the two CallGraph classes agree with the call stacks of the threads
+    cols = impl.get("columns", {})
+    for label in ("old", "new"):
+        if f"{label}|error" in cols:
+            disc.append(f"{label} CallGraph raised {cols[label + '|error']}")
+            continue
+        if label == "new" and impl.get("has_autograd"):
+            continue        # the autograd thread is re-parented beneath the main thread's annotations (C13's subject)
+        for key, res in sorted(impl["threads"].items()):
+            r = key.split("|")[0]
+            nodes = res[label + "_all"]
+            col = cols.get(f"{label}|{r}")
+            if isinstance(nodes, str) or col is None:
+                continue
+            col = {int(k): v for k, v in col.items()}
+            bad = [(int(k), col.get(int(k)), [v[0] if v[0] >= 0 else -1, v[1]]) for k, v in nodes.items()
+                   if col.get(int(k)) != [v[0] if v[0] >= 0 else -1, v[1]]][:4]
+            if bad:
+                disc.append(f"thread {key}: [parent, depth] columns written by the {label} CallGraph differ from the thread's call stack "
+                            f"(idx, columns, call stack): {bad}")
     return disc[:8]
 
 
